@@ -300,6 +300,13 @@ example : ¬ Needs wPenalty ∧ fit repaired wPenalty true (some (fitShape good)
   have := h.pen_le 0 (by decide)
   revert this; decide
 
+/-- `changed_only_after_checks`: a call that changes the table exists -/
+example : (fit repaired good true none).2 ≠ none := by decide
+
+/-- `cwrapper_reject_unchanged`: a C call whose views are rejected by the sanity block -/
+example : fitChecks repaired (CArgs.view ⟨good.data, [2, 0], good.knots, [true, true], [0, 3], 1⟩)
+    = .reject (.penaltyOrder 1) := by decide
+
 /-- the wrapper: zero on a good fit, non-zero on a null handle and on a rejected call -/
 example : (cGlamfit repaired false false ⟨good.data, [2, 0], good.knots, [true, true], [0, 0], 1⟩ true none).1 = 0 ∧
     (cGlamfit repaired true false ⟨good.data, [2, 0], good.knots, [true, true], [0, 0], 1⟩ true none).1 = 1 ∧
